@@ -1466,6 +1466,9 @@ def _run(tier, rep, wd, st):
                     api = api.replace("to_der", "to_pem")
                 key = "C19:%s:%s" % (api, clause) if clause == "pkcs8-version" else "C19:%s:%s:%s" % (api, e.get("kind", e.get("pe")), clause)
                 what = "library encoding rejected by the specification: %s" % clause
+                if str(e.get("key", "")).startswith("provenance: "):
+                    key += ":" + e["key"][12:].split(" / ")[0].split("[")[0].replace(" ", "-")
+                    what = "encoding of a key object held as '%s': %s" % (e["key"][12:], clause)
                 data = _short(e)
             elif op == "ossl":
                 key = "C19:SigningKey.to_der:pkcs8-version" if clause == "pkcs8-version" else "C19:openssl-reencode:%s:%s" % (e["kind"], clause)
